@@ -90,6 +90,11 @@ func genC05(t *rapid.T) c5Case {
 			case 1:
 				g.Ignore = append(g.Ignore, c.Mod.Pkgs[pi].Dir)
 			}
+			// the package switches this generator off for itself with a package-level tag (every other package keeps it)
+			if rapid.IntRange(0, 7).Draw(t, "switchedoff") == 0 && len(c.Mod.Pkgs[pi].Files) > 0 {
+				f := &c.Mod.Pkgs[pi].Files[0]
+				f.PkgDoc = append(f.PkgDoc, "+gengo:"+n+"=false")
+			}
 			// left-overs of earlier runs: a file of this generator, a file of a generator that no longer runs
 			if rapid.IntRange(0, 2).Draw(t, "stale") == 0 {
 				c.Mod.Pkgs[pi].Other = append(c.Mod.Pkgs[pi].Other, modspec.File{Name: "zz_generated." + n + ".go",
@@ -360,6 +365,15 @@ func c5Features(c c5Case) []string {
 			fs["state-"+s] = true
 		}
 		fs["mode-"+g.Mode] = true
+		for _, p := range c.Mod.Pkgs {
+			for _, f := range p.Files {
+				for _, l := range f.PkgDoc {
+					if l == "+gengo:"+g.Name+"=false" {
+						fs["package-switches-a-generator-off"] = true
+					}
+				}
+			}
+		}
 	}
 	for _, r := range c.Real {
 		fs["real-"+r] = true
